@@ -225,6 +225,11 @@ T_C15 = T("C15", "outcome", "sink_prefix", "failure_reported", "failure_reported
 T_C18 = T("C18", "read_le", "read_progress", "frame_eq_writer", "frameOf_eq_writer", "output_eq_writer", "frame_valid", "frame_valid_info", "eof_last",
           "after_eof_done", "eof_only_when_flushed", "done_stays_done", "reaches_eof", "reaches_eof_frame", "source_error_passed", "error_no_bytes",
           "source_error_surfaces", "read_zero")
+T_C18 = T_C18 + T("C18reuse", "cfgOK_new", "cfgOK_apply", "cfgOK_read", "cfgOK_reset", "reach_cfgOK", "reset_wf", "reset_apply_wf",
+                   "reuse_frame_eq", "reuse_frame_eq_reset", "reuse_frame_eq_reach", "reuse_frame_valid", "reuse_frame_valid_reset", "reuse_reaches_eof",
+                   "reset_forgets", "reset_forgets_state", "reset_apply_forgets", "reset_forgets_two",
+                   kind="reused readers: any earlier state, Reset, optional Apply (CfgOK = the flag words the API can produce; reach_cfgOK)") \
+    + T("C18reuse", "cfg_needed", kind="counterexample: a hand-made configuration outside CfgOK (flags 0) breaks the reader; no API call produces it")
 T_C07 = T("C07", "pos_monotone_read", "pos_monotone_writeTo", "source_unchanged_read", "read_le", "bounded_new", "bounded_read", "bounded_writeTo", "bounded_reset",
           "bad_magic_read", "bad_magic_writeTo", "skippable_transparent", "skippable_alone")
 T_C12 = T("C12", "c12", kind="full under the layout Go guarantees, len(dst) < 2^63, and no dictionary or &dst >= 65536")
@@ -341,6 +346,33 @@ CR_FAM = dict(family="cr", variant="asm", kview=kview_w, nontrivial=nontrivial_s
                                                   "n<=len(p), progress, one valid frame, io.EOF, source error passed through")))
 HDR_FAM = dict(family="hdr", variant="asm", kview=lambda l: l.split(" ; ")[0].strip(), nontrivial=lambda c, i: "acc=" in i and not i.startswith("acc= "),
                judge=j_notes(r"HDR-MISMATCH\S*", "header acceptance not exact", "accepted iff checksum byte right and block-size code in 4..7; distinct errors; Size unchanged"))
+# ---- source ties (DESIGN.md §2.3): which regenerated function hashes each property's models stand on ----
+_B = "internal/lz4block/"
+_S = "internal/lz4stream/"
+T_FASTC = [_B + "block.go:Compressor.*", _B + "block.go:CompressBlock", _B + "block.go:blockHash", _B + "block.go:CompressBlockBound",
+           _B + "block.go:recoverBlock", _B + "block.go:<decls>", "lz4.go:CompressBlock", "lz4.go:Compressor.CompressBlock", "lz4.go:CompressBlockBound"]
+T_HCC = [_B + "block.go:CompressorHC.*", _B + "block.go:CompressBlockHC", _B + "block.go:blockHashHC", _B + "block.go:CompressBlockBound",
+         _B + "block.go:recoverBlock", _B + "block.go:<decls>", "lz4.go:CompressBlockHC", "lz4.go:CompressorHC.CompressBlock", "lz4.go:CompressBlockBound"]
+T_DEC = [_B + "block.go:UncompressBlock", _B + "block.go:<decls>", _B + "decode_other.go:*", _B + "decode_asm.go:*", _B + "decode_amd64.s", "lz4.go:UncompressBlock*"]
+T_XXH = ["internal/xxh32/xxh32zero.go:*", "internal/xxh32/xxh32zero_other.go:*"]
+T_STREAM = [_S + "frame.go:*", _S + "block.go:*", _S + "frame_gen.go:*", _B + "blocks.go:*", "state.go:*", "options.go:*"]
+T_W = ["writer.go:*"] + T_STREAM
+T_R = ["reader.go:*"] + T_STREAM
+T_CR = ["compressing_reader.go:*"] + T_STREAM
+TIES = {
+    "C01": T_FASTC + T_HCC + T_DEC, "C10": T_FASTC + T_HCC, "C11": T_FASTC + T_HCC,
+    "C03": T_DEC, "C04": T_DEC, "C12": T_DEC,
+    "C13": T_XXH + [_S + "frame.go:*", _S + "block.go:*"],
+    "C02": T_W + T_R + T_FASTC + T_HCC + T_DEC + T_XXH,
+    "C05": T_R + T_DEC + T_XXH, "C06": T_R + T_DEC + T_XXH, "C07": T_R + T_DEC + T_XXH, "C16": T_R + T_DEC,
+    "C08": T_W + T_R, "C15": T_W + T_R, "C17": T_W + T_R,
+    "C09": T_W + T_CR + T_FASTC + T_HCC + T_XXH,
+    "C14": T_W + T_FASTC + T_HCC,
+    "C18": T_CR + T_FASTC + T_HCC + T_XXH,
+    "C19": ["reader.go:*", _S + "frame.go:*", _S + "frame_gen.go:*", _B + "blocks.go:*"] + T_XXH,
+    "C20": ["cmd/lz4c/*"] + T_W + T_R + T_FASTC + T_HCC + T_DEC + T_XXH,
+}
+
 SCHED = {"VERIF_SCHED": "1"}
 PROPS = {
     "C08": dict(runs=[FW("conc", judge=j_c08, env=SCHED), FR("frmut", judge=j_c08, env={"VERIF_SCHED": "2"}), FW("fwfail", judge=j_c08, env={"VERIF_SCHED": "3"})],
